@@ -569,6 +569,10 @@ func writeEvidence(id, tier string, seed uint64, level string, cov map[string]an
 		"violations":  violations,
 	}
 	dir := filepath.Join(verifDir, "evidence")
+	if repoDir != "/repo" {
+		// a run against a snapshot is never evidence about /repo
+		dir = filepath.Join(verifDir, "evidence-snapshot")
+	}
 	os.MkdirAll(dir, 0o755)
 	b, _ := json.MarshalIndent(ev, "", " ")
 	tmp := filepath.Join(dir, id+".json.tmp")
